@@ -20,16 +20,43 @@ func init() {
 
 // recReader records what a deterministic source delivered
 type recReader struct {
-	r   *RNG
-	buf []byte
+	r     *RNG
+	buf   []byte
+	chunk int // > 0: deliver at most this many bytes per Read (a legal io.Reader may do so)
 }
 
 func (d *recReader) Read(p []byte) (int, error) {
-	for i := range p {
+	n := len(p)
+	if d.chunk > 0 && n > d.chunk {
+		n = d.chunk
+	}
+	for i := 0; i < n; i++ {
 		p[i] = byte(d.r.U64())
 	}
-	d.buf = append(d.buf, p...)
-	return len(p), nil
+	d.buf = append(d.buf, p[:n]...)
+	return n, nil
+}
+
+// newRecReader: mostly whole reads, sometimes a source that delivers 1, 3, 7 or 31 bytes per call
+func newRecReader(rng *RNG) *recReader {
+	rr := &recReader{r: rng.Fork()}
+	if rng.Chance(30) {
+		rr.chunk = []int{1, 3, 7, 31}[rng.Intn(4)]
+	}
+	return rr
+}
+
+// seed32 returns the 32 bytes a signing event must have drawn, and notes on the family when the
+// source was asked for less (the key pair then does not come from 32 bytes of the source)
+func (f *family) seed32(rr *recReader, op string) []byte {
+	if len(rr.buf) != 32 {
+		f.entropy = append(f.entropy, fmt.Sprintf("%s drew %d bytes from a source delivering %d byte(s) per call; a signing event must draw exactly 32", op, len(rr.buf), rr.chunk))
+	}
+	b := append([]byte{}, rr.buf...)
+	for len(b) < 32 {
+		b = append(b, 0)
+	}
+	return b[:32]
 }
 
 // ---------- a family of tokens built by a random history ----------
@@ -53,6 +80,16 @@ type family struct {
 	orc      *oracle
 	chain    []string // model cases for chain ops
 	chainD   []string
+	entropy  []string // signing events that did not draw exactly 32 bytes from their source
+}
+
+// entropyCheck reports signing events whose key pair does not come from 32 bytes of the source
+// (e.g. a single short Read instead of io.ReadFull: the rest of the seed stays zero, and two
+// signing events may then share a key, hence a revocation id)
+func (f *family) entropyCheck(res *Result) {
+	for _, e := range f.entropy {
+		res.Violate("seed-not-32-source-bytes", "a signing event did not take its 32-byte seed from the random source: "+e, map[string]interface{}{"root_seed": fmt.Sprintf("%x", f.rootSeed), "event": e})
+	}
 }
 
 func simpleBlock(rng *RNG, i int) SBlock {
@@ -95,7 +132,7 @@ func (f *family) add(t *famToken) int {
 }
 
 func (f *family) build(rng *RNG, rid *uint32) int {
-	rr := &recReader{r: rng.Fork()}
+	rr := newRecReader(rng)
 	var b biscuit.Builder
 	if rid != nil {
 		b = biscuit.NewBuilder(f.priv, biscuit.WithRNG(rr), biscuit.WithRootKeyID(*rid))
@@ -115,7 +152,7 @@ func (f *family) build(rng *RNG, rid *uint32) int {
 	}
 	i := f.add(&famToken{Tok: tok, Parent: -1, Op: "build", RootID: rid, Blocks: []SBlock{blk}})
 	c := f.toks[i].C
-	f.orc.addPub(rr.buf[:32])
+	f.orc.addPub(f.seed32(rr, "Build"))
 	f.orc.addSign(f.rootSeed, c.Auth.payload())
 	f.chain = append(f.chain, fmt.Sprintf("{| cc_op := OpBuild %s %s %s; cc_src := %s; cc_obs := OOk %s |}", coqBytes(f.rootSeed), coqOptN(rid), coqBytes(c.Auth.Block), coqBytes(rr.buf), c.coq()))
 	f.chainD = append(f.chainD, "build")
@@ -124,7 +161,7 @@ func (f *family) build(rng *RNG, rid *uint32) int {
 
 func (f *family) append(rng *RNG, pi int) (int, error) {
 	p := f.toks[pi]
-	rr := &recReader{r: rng.Fork()}
+	rr := newRecReader(rng)
 	blk := simpleBlock(rng, len(p.Blocks))
 	bb := p.Tok.CreateBlock()
 	fillBlockBuilder(bb, blk)
@@ -137,7 +174,7 @@ func (f *family) append(rng *RNG, pi int) (int, error) {
 	i := f.add(&famToken{Tok: tok, Parent: pi, Op: "append", RootID: p.RootID, Blocks: append(append([]SBlock{}, p.Blocks...), blk)})
 	c := f.toks[i].C
 	nb := c.Blocks[len(c.Blocks)-1]
-	f.orc.addPub(rr.buf[:32])
+	f.orc.addPub(f.seed32(rr, "Append"))
 	f.orc.addPub(p.C.Proof)
 	f.orc.addSign(p.C.Proof, nb.payload())
 	f.chain = append(f.chain, fmt.Sprintf("{| cc_op := OpAppend (%s) %s; cc_src := %s; cc_obs := OOk %s |}", p.C.coq(), coqBytes(nb.Block), coqBytes(rr.buf), c.coq()))
@@ -407,6 +444,51 @@ func (f *family) mutations(rng *RNG, ti int) []mutation {
 		} else {
 			c.Proof = &pb.Proof{Content: &pb.Proof_NextSecret{NextSecret: secret}}
 			add(fmt.Sprintf("proof-secret-from-public-bytes-%d", kind), c)
+		}
+	}
+	// 15 a genuine value extended or truncated: the genuine bytes are still there as a prefix
+	{
+		c := cloneEnv(t.Bytes)
+		grow := func(b []byte) []byte {
+			b = append([]byte{}, b...)
+			switch rng.Intn(5) {
+			case 0:
+				return append(b, 0)
+			case 1:
+				return append(b, rng.Bytes(32)...)
+			case 2:
+				return append(b, b...)
+			case 3:
+				if len(b) > 0 {
+					return b[:len(b)-1]
+				}
+				return b
+			default:
+				return append(b, rng.Bytes(1+rng.Intn(3))...)
+			}
+		}
+		sb := sbAt(c, rng.Intn(nb(c)+1))
+		switch pr := c.Proof.Content.(type) {
+		case *pb.Proof_FinalSignature:
+			if rng.Chance(60) {
+				pr.FinalSignature = grow(pr.FinalSignature)
+				add("seal-extended-or-truncated", c)
+				break
+			}
+			sb.Signature = grow(sb.Signature)
+			add("signature-extended-or-truncated", c)
+		case *pb.Proof_NextSecret:
+			switch rng.Intn(3) {
+			case 0:
+				pr.NextSecret = grow(pr.NextSecret)
+				add("secret-extended-or-truncated", c)
+			case 1:
+				sb.Signature = grow(sb.Signature)
+				add("signature-extended-or-truncated", c)
+			default:
+				sb.NextKey.Key = grow(sb.NextKey.Key)
+				add("key-extended-or-truncated", c)
+			}
 		}
 	}
 	// 13 sealed token: last block / last key altered
@@ -733,6 +815,7 @@ func runC17(res *Result, rng *RNG, tier string, outDir string) {
 		f := newFamilyShared(r, newOracle())
 		genFamilyInto(f, r, true)
 		f.frameCheck(res, "ids-changed-by-sibling")
+		f.entropyCheck(res)
 		// a sibling with identical content appended twice to the same parent
 		if len(f.toks) > 0 {
 			p := 0
@@ -908,9 +991,6 @@ func runC09(res *Result, rng *RNG, tier string, outDir string) {
 		}
 		// tampering with the sealed envelope
 		for _, m := range f.mutations(r, si) {
-			if !strings.HasPrefix(m.Name, "sealed-") && m.Name != "signature-bitflip" && m.Name != "proof-random-seal" && m.Name != "proof-attacker-seal" && m.Name != "block-bytes-substituted" && m.Name != "key-replaced" {
-				continue
-			}
 			class, _, pan := verifyGo(m.Bytes, ks)
 			res.Count(string(m.Bytes), true)
 			res.Dist("tamper:" + m.Name + ":" + class)
